@@ -11,7 +11,7 @@
 EXTENDS XmlImpl, TLC, Json
 
 CONSTANTS MaxNodes, MaxHeight, Decos, MDs, Pres, GenMode
-VARIABLES flat, prog
+VARIABLES flat, acts
 
 Names == {<<97>>, <<97, 98>>, <<98>>}
 NoPre == [lead |-> <<>>, items |-> <<>>, tail |-> <<>>]
@@ -40,16 +40,29 @@ BuildKids(fl, j, d, acc) == IF j > Len(fl) THEN [nodes |-> acc, next |-> j]
                             ELSE LET b == BuildAt(fl, j) IN BuildKids(fl, b.next, d, Append(acc, b.node))
 Tree == BuildAt(flat, 1).node
 
+(* acts[i] is the action assigned to the i-th element (document order).  An element is reached iff all its      *)
+(* ancestors are descended into and no reached element before it aborts; the action of an unreached element is   *)
+(* never consulted, so only SKIP is generated for it.  prog = the actions of the reached elements = the program   *)
+(* in callback-invocation order that Xml!Expected and the adapter consume.                                       *)
+AncestorOf(fl, j, e) == CHOOSE i \in 1..(j - 1) : fl[i].d = e /\ \A m \in (i + 1)..(j - 1) : fl[m].d > e
+RECURSIVE ReachedIn(_, _, _)
+ReachedIn(fl, ac, j) == /\ \A e \in 1..(fl[j].d - 1) : ac[AncestorOf(fl, j, e)] = DESCEND
+                        /\ \A i \in 1..(j - 1) : ac[i] = ABORT => ~ReachedIn(fl, ac, i)
+prog == SelectSeq([j \in 1..Len(flat) |-> IF ReachedIn(flat, acts, j) THEN acts[j] ELSE 0], LAMBDA a : a # 0)
+
 Init == /\ \E nm \in Names, dc \in Decos, act \in Actions :
               /\ flat = <<[d |-> 1, n |-> nm, deco |-> dc]>>
-              /\ prog = <<act>>
+              /\ acts = <<act>>
 AddNode == /\ Len(flat) < MaxNodes
            /\ \E d \in 2..MaxHeight, nm \in Names, dc \in Decos, act \in Actions :
                  /\ d <= flat[Len(flat)].d + 1
-                 /\ flat' = Append(flat, [d |-> d, n |-> nm, deco |-> dc])
-                 /\ prog' = Append(prog, act)
+                 /\ LET fl == Append(flat, [d |-> d, n |-> nm, deco |-> dc])
+                        ac == Append(acts, act)
+                    IN /\ (act # SKIP => ReachedIn(fl, ac, Len(fl)))
+                       /\ flat' = fl
+                       /\ acts' = ac
 Next == AddNode
-Spec == Init /\ [][Next]_<<flat, prog>>
+Spec == Init /\ [][Next]_<<flat, acts>>
 
 -----------------------------------------------------------------------------
 (* the transcribed algorithm observes exactly what the property demands, for every max_depth and preamble *)
